@@ -49,6 +49,8 @@ def gen_seq(rnd, kind, length):
     steps = []
     views = {"r": False, "q": False}
     dist = {}
+    noset = False   # after an element was stored by reference (*_ref, resize(n, v), Map_Pair) writes through [] hit Boxed_Value
+                    # const-ness / aliasing rules, which are not container behaviour: no `set` steps from then on
 
     def note(k):
         dist[k] = dist.get(k, 0) + 1
@@ -65,18 +67,22 @@ def gen_seq(rnd, kind, length):
             op = rnd.choice(["front", "back", "pop_front", "pop_back", "empty", "pop_front", "pop_back"])
             steps.append("%s %s" % (v, op)); note("range:" + op)
             continue
-        if kind != "Pair" and r < 0.55 and rnd.random() < 0.5:
+        if kind != "Pair" and r < 0.55 and rnd.random() < 0.22:
             t = rnd.choice(["c", "k"])
             steps.append("%s mkrange" % t); views["r" if t == "c" else "q"] = True; note("mkrange")
             continue
         tgt = "k" if rnd.random() < 0.15 else "c"
         mutated = False
         if kind in ("Vector", "List"):
-            ops = ["push_back"] * 4 + ["pop_back"] * 3 + ["back", "front", "insert_at", "insert_at", "erase_at", "erase_at", "resize", "resize2", "clear", "size", "empty"]
+            ops = ["push_back"] * 6 + ["pop_back"] * 3 + ["back", "front", "insert_at", "insert_at", "erase_at", "erase_at", "resize", "resize2", "clear", "size", "empty"]
             ops += ["[]", "[]", "[]", "set", "reserve", "capacity", "push_back_ref", "insert_ref_at"] if kind == "Vector" else ["push_front", "push_front", "pop_front", "pop_front", "pop_front"]
             if live:
                 ops = [o for o in ops if o in ("back", "front", "[]", "size", "empty", "capacity")] * 3 + ops[:6]
             op = rnd.choice(ops)
+            if op == "set" and noset:
+                op = "[]"
+            if op in ("push_back_ref", "insert_ref_at", "resize2"):
+                noset = True
             x = rnd.randrange(0, 100)
             if op in ("push_back", "push_front", "push_back_ref"):
                 st = "%s %d" % (op, x); s.n += (tgt == "c"); mutated = True
@@ -96,7 +102,8 @@ def gen_seq(rnd, kind, length):
             elif op == "set":
                 i = idx_pool(rnd, n); note("idx:" + cls(i, n)); st = "set %d %d" % (i, x); tgt = "c"; mutated = True
             elif op in ("resize", "resize2"):
-                m = rnd.choice([0, n - 1, n, n + 1, n + 3, -1, 2**63, 1]); note("resize:" + ("huge" if m < 0 or m > 64 else "small"))
+                # std::list::resize has no max_size check: a huge argument allocates until memory is exhausted (not exercised)
+                m = rnd.choice([0, n - 1, n, n + 1, n + 3, 1, -1, 2**63] if kind == "Vector" else [0, max(n - 1, 0), n, n + 1, n + 3, 1, 2]); note("resize:" + ("huge" if m < 0 or m > 64 else "small"))
                 st = "resize %d" % m if op == "resize" else "resize %d %d" % (m, x); mutated = True
                 if tgt == "c" and 0 <= m <= 64: s.n = m
             elif op == "reserve":
@@ -117,7 +124,11 @@ def gen_seq(rnd, kind, length):
             if op in ("push_back", "+="):
                 st = "%s %s" % (op, ch); s.n += (tgt == "c"); mutated = True
             elif op == "insert_at":
-                i = idx_pool(rnd, n); note("idx:" + cls(i, n)); st = "insert_at %d %s" % (i, ch); mutated = True
+                # a position literal that is not an `int` selects the prelude's generic insert_at (which has no string overload to
+                # forward to and raises): overload choice is outside this model, so string positions stay int-typed
+                i = idx_pool(rnd, n)
+                if not -2**31 < i < 2**31: i = 2**31 - 1
+                note("idx:" + cls(i, n)); st = "insert_at %d %s" % (i, ch); mutated = True
                 if tgt == "c" and 0 <= i <= n: s.n += 1
             elif op == "erase_at":
                 i = idx_pool(rnd, n); note("idx:" + cls(i, n)); st = "erase_at %d" % i; mutated = True
@@ -143,6 +154,10 @@ def gen_seq(rnd, kind, length):
             if live:
                 ops = ["at", "count", "size", "empty", "at"] * 2 + ["erase"]
             op = rnd.choice(ops)
+            if op == "set" and noset:
+                op = "at"
+            if op == "insert_ref":
+                noset = True
             x = rnd.randrange(0, 100)
             if op == "[]":
                 st = '[] "%s' % key; mutated = True
@@ -169,7 +184,7 @@ def gen_seq(rnd, kind, length):
         else:  # Pair
             op = rnd.choice(["first", "second", "setfirst", "setsecond"])
             if op.startswith("set"):
-                st = "%s %s" % (op, rnd.choice(["1", "7", '"ab', "'99"])); tgt = "c"
+                st = "%s %d" % (op, rnd.randrange(100)); tgt = "c"
             else:
                 st = op
         note("op:" + st.split()[0])
@@ -181,7 +196,7 @@ def gen_seq(rnd, kind, length):
 
 def gen_cases(tier, seed):
     rnd = random.Random(seed * 104729 + 12)
-    n = {"quick": 2400, "thorough": 40000}[tier]
+    n = {"quick": 4000, "thorough": 40000}[tier]
     maxlen = {"quick": 12, "thorough": 40}[tier]
     cases, dist = [], {}
     weights = ["Vector"] * 5 + ["List"] * 3 + ["string"] * 5 + ["Map"] * 3 + ["Pair"]
@@ -251,30 +266,71 @@ def died(line):
     return line.startswith("SIG(") or line.startswith("EXIT(")
 
 
-def minimise_crash(hbin, case):
-    nsteps = len(case.split(" ", 1)[1].split(";"))
-    pre = [prefix(case, k) for k in range(1, nsteps + 1)]
-    _, out, _ = vlib.run_lines(hbin, pre, timeout=1200, env=ENV)
-    for p, o in zip(pre, out):
-        if died(o):
-            # sanitizer text for the replay
-            rc, _, err = vlib.run([hbin], input=(p + "\n").encode(), timeout=300, env=ENV)
-            return p, o, err.decode(errors="replace")[-1800:]
-    return case, "?", ""
+def fails(case, impl_line, spec_line):
+    return died(impl_line) or first_mismatch(case, impl_line, spec_line, exact_class=False) is not None
+
+
+def minimise(hbin, sbin, case):
+    """shortest failing prefix, then greedily drop earlier steps while the sequence still fails (delta debugging, one step at a time)"""
+    kind, rest = case.split(" ", 1)
+    steps = rest.split(";")
+
+    def run_batch(cands):
+        lines = [kind + " " + ";".join(c) for c in cands]
+        _, io, _ = vlib.run_lines(hbin, lines, timeout=1200, env=ENV)
+        _, so, _ = vlib.run_lines(sbin, lines, timeout=600)
+        return [(l, i, s_) for l, i, s_ in zip(lines, io, so)]
+
+    res = run_batch([steps[:k] for k in range(1, len(steps) + 1)])
+    for k, (l, i, s_) in enumerate(res):
+        if fails(l, i, s_):
+            steps = steps[:k + 1]
+            break
+    else:
+        return case
+    changed = True
+    while changed and len(steps) > 1:
+        changed = False
+        cands = [steps[:j] + steps[j + 1:] for j in range(len(steps) - 1)]   # the last step is the failing one: keep it
+        for cand, (l, i, s_) in zip(cands, run_batch(cands)):
+            if fails(l, i, s_):
+                steps, changed = cand, True
+                break
+    return kind + " " + ";".join(steps)
+
+
+def sanitizer_text(hbin, case):
+    rc, _, err = vlib.run([hbin], input=(case + "\n").encode(), timeout=300, env=ENV)
+    keep = [l for l in err.decode(errors="replace").split("\n") if re.search(r"ERROR|runtime error|Assertion|SUMMARY|^\s+#[0-4] ", l)]
+    return "\n".join(keep[:14])
 
 
 def run(c, cases, hbin, mbin, sbin, judged):
-    _, impl, err = vlib.run_lines(hbin, cases, timeout=3000, env=ENV)
+    # the implementation runs in chunks: once a handful of cases have killed the process there is nothing to gain from
+    # feeding it thousands more (each death costs a fork + engine start, a hang costs the 5 s alarm); the rest is not run
+    impl, err, deaths = [], "", 0
+    CH = 250
+    for a in range(0, len(cases), CH):
+        if deaths >= 8:
+            impl += ["NOTRUN"] * len(cases[a:a + CH])
+            continue
+        _, out, err = vlib.run_lines(hbin, cases[a:a + CH], timeout=3000, env=ENV)
+        if len(out) != len(cases[a:a + CH]):
+            raise vlib.BuildError("harness produced %d lines for %d cases\n%s" % (len(out), len(cases[a:a + CH]), err[-1500:]))
+        impl += out
+        deaths += sum(1 for o, jj in zip(out, judged[a:a + CH]) if jj and died(o))
     _, specs, err3 = vlib.run_lines(sbin, cases, timeout=3000)
     if mbin:
         _, model, err2 = vlib.run_lines(mbin, cases, timeout=3000)
     else:
         model, err2 = [None] * len(cases), ""
-    if len(impl) != len(cases) or len(specs) != len(cases) or len(model) != len(cases):
-        raise vlib.BuildError("harness/model produced %d/%d/%d lines for %d cases\n%s\n%s" % (len(impl), len(model), len(specs), len(cases), err[-1500:], err3[-800:]))
+    if len(specs) != len(cases) or len(model) != len(cases):
+        raise vlib.BuildError("models produced %d/%d lines for %d cases\n%s" % (len(model), len(specs), len(cases), err3[-800:]))
     ndis = nfail = 0
     seen = set()
     for case, i, m, s, j in zip(cases, impl, model, specs, judged):
+        if i == "NOTRUN":
+            continue
         c.cov["evaluations"] += 1
         if not j:
             continue
@@ -287,23 +343,29 @@ def run(c, cases, hbin, mbin, sbin, judged):
         c.dist["steps:precondition-violated"] = c.dist.get("steps:precondition-violated", 0) + nerr
         if nerr and nok >= 2 and case not in seen:
             seen.add(case)
-        if died(i):
+        if fails(case, i, s):
             nfail += 1
-            if nfail <= 3:
-                p, o, san = minimise_crash(hbin, case)
-                c.fail("the process was killed while executing this operation sequence (sanitizer report / signal): memory outside the container was touched",
-                       {"case": p, "impl": o, "spec": vlib.run_lines(sbin, [p])[1][0], "sanitizer": san,
-                        "format": "<Kind> <target> <op> <args>;...  targets c=container k=const ref r/q=range views; see harness/h_stl.cpp"})
-            continue
-        k = first_mismatch(case, i, s, exact_class=False)
-        if k is not None:
-            nfail += 1
-            if nfail <= 20:
-                im, sp = steps_of(i), sst
-                c.fail("step %d of the sequence does not have the effect/result of the std:: container operation (or does not raise where the precondition is violated)" % (k + 1),
-                       {"case": prefix(case, k + 1), "step": k + 1, "impl_step": im[k] if k < len(im) else "<missing>", "spec_step": sp[k] if k < len(sp) else "<missing>",
-                        "impl": " ;; ".join(im[:k + 1]), "spec": " ;; ".join(sp[:k + 1]),
-                        "format": "<Kind> <target> <op> <args>;...  observation per step: result | contents | live views"})
+            if nfail <= 4:
+                mc = minimise(hbin, sbin, case)
+                _, mi, _ = vlib.run_lines(hbin, [mc], env=ENV)
+                _, ms, _ = vlib.run_lines(sbin, [mc])
+                mi, ms = mi[0], ms[0]
+                if died(mi):
+                    c.fail("the process was killed while executing this operation sequence (sanitizer report / library assertion / signal): "
+                           "an unchecked std:: precondition was violated from script",
+                           {"case": mc, "impl": mi, "spec": ms, "sanitizer": sanitizer_text(hbin, mc), "found_in": case,
+                            "format": "<Kind> <target> <op> <args>;...  targets c=container k=const ref r/q=range views; see harness/h_stl.cpp"})
+                else:
+                    k = first_mismatch(mc, mi, ms, exact_class=False)
+                    im, sp = steps_of(mi), steps_of(ms)
+                    c.fail("step %d of the sequence does not have the effect/result of the std:: container operation (or does not raise where the precondition is violated)" % ((k or 0) + 1),
+                           {"case": mc, "step": (k or 0) + 1, "impl_step": im[k] if k is not None and k < len(im) else "<missing>",
+                            "spec_step": sp[k] if k is not None and k < len(sp) else "<missing>", "impl": mi, "spec": ms, "found_in": case,
+                            "format": "<Kind> <target> <op> <args>;...  observation per step: result | contents | live views"})
+            elif nfail <= 20:
+                c.fail("further failing sequence (not minimised)", {"case": case, "impl": i[:400], "spec": s[:400]})
+            if died(i):
+                continue
         if m is not None:
             k2 = first_mismatch(case, i, m, exact_class=True)
             if k2 is not None:
